@@ -164,6 +164,19 @@ CHECKS["C08"] = (
     "DESIGN.md section 3 / C08",
 )
 
+CHECKS["C17"] = (
+    "Hypothesis texts (grammar-derived, token-mutated, semantically ill-formed, random) + coverage-guided atheris campaign (thorough) with a totality / agreement / recompilation oracle",
+    "Seeded Hypothesis search over well-formed texts rendered from grammar ASTs, single-token mutations of them, "
+    "semantically ill-formed texts and random strings, for both the xpath and the pattern language; only the "
+    "definition errors may escape, the three pattern entry points must agree, well-formed texts must be accepted, "
+    "the listed ill-formed kinds rejected, and blanks between tokens, cache hits, cleared caches and later "
+    "compilations must leave the behaviour on a fixed pool of trees unchanged. The thorough tier adds 16 "
+    "coverage-guided atheris campaigns (empty and seeded corpora) with the same oracle inside the target.",
+    "Trusts Hypothesis / libFuzzer, the token renderers of pbt/pattern_ref.py and pbt/xpath_ref.py; behavioural "
+    "equality is judged on a fixed pool of trees.",
+    "DESIGN.md section 3 / C17",
+)
+
 NOT_YET = "check not built yet in this snapshot (see DESIGN.md section 9 build order); nothing is claimed"
 
 
